@@ -2,9 +2,24 @@
 
 package ring
 
+import "math/rand"
+
 // Hooks for the verification harness in /verif (build tag "verif"). Add-only: nothing here
 // changes behaviour; each function is a thin exported door onto existing unexported code.
 
 // VerifUpdateRingState feeds a descriptor to the ring client exactly as the KV watch
 // callback of Ring.loop does.
 func (r *Ring) VerifUpdateRingState(d *Desc) { r.updateRingState(d) }
+
+// VerifNewRandomTokenGeneratorWithSource builds the random token generator on an injected
+// randomness source, so that a harness can enumerate the draws (collisions with taken tokens,
+// with its own earlier draws, boundary values).
+func VerifNewRandomTokenGeneratorWithSource(src rand.Source) *RandomTokenGenerator {
+	return &RandomTokenGenerator{r: rand.New(src)}
+}
+
+// VerifTokensByInstanceID exposes the tokens the spread-minimising generator attributes to every
+// instance index up to its own (one pass instead of one generator per index).
+func (t *SpreadMinimizingTokenGenerator) VerifTokensByInstanceID() (map[int]Tokens, error) {
+	return t.generateTokensByInstanceID()
+}
